@@ -107,20 +107,29 @@ struct CmdResult {
 };
 
 struct VersionStore {
-	std::map<std::string, std::shared_ptr<Bytes>> m;
+	// (disk, path, size, mtime) -> every distinct content seen under that key. Normally one; silent damage with the
+	// stamp restored, or a fix that writes wrong bytes under the recorded stamp, add more. Oracles pick the version of a
+	// block by the recorded hash.
+	std::map<std::string, std::vector<std::shared_ptr<Bytes>>> m;
 	static std::string key(const std::string& disk, const std::string& sub, uint64_t size, int64_t s, int64_t ns)
 	{
 		return disk + '\0' + sub + '\0' + strf("%llu:%lld:%lld", (unsigned long long)size, (long long)s, (long long)ns);
 	}
 	void put(const std::string& disk, const std::string& sub, const Bytes& b, int64_t s, int64_t ns)
 	{
-		std::string k = key(disk, sub, b.size(), s, ns);
-		if (!m.count(k)) m[k] = std::make_shared<Bytes>(b);
+		auto& v = m[key(disk, sub, b.size(), s, ns)];
+		for (auto& e : v) if (*e == b) return;
+		v.push_back(std::make_shared<Bytes>(b));
 	}
 	std::shared_ptr<Bytes> get(const std::string& disk, const std::string& sub, uint64_t size, int64_t s, int64_t ns) const
 	{
 		auto it = m.find(key(disk, sub, size, s, ns));
-		return it == m.end() ? nullptr : it->second;
+		return it == m.end() || it->second.empty() ? nullptr : it->second[0];
+	}
+	const std::vector<std::shared_ptr<Bytes>>* all(const std::string& disk, const std::string& sub, uint64_t size, int64_t s, int64_t ns) const
+	{
+		auto it = m.find(key(disk, sub, size, s, ns));
+		return it == m.end() ? nullptr : &it->second;
 	}
 };
 
